@@ -328,7 +328,9 @@ func (s *state) walk(node parse.Node) error {
 		if err != nil {
 			return err
 		}
-		si.blocks = append(s.blocks, node.Blocks, tree.Blocks())
+		// Only the blocks in the embed body override the embedded template's
+		// blocks; blocks of the host template with the same name are unrelated.
+		si.blocks = []map[string]*parse.BlockNode{node.Blocks, tree.Blocks()}
 		err = si.walk(tree.Root())
 		if err != nil {
 			return err
